@@ -2,9 +2,10 @@
 
   --mode c20   histories of set_node / set_nodes / delete / set_metadata_for / move_child_to on real
                mutable directories with time pinned; output = traces for spec/dir/TraceDirnode.tla
-  --mode c19   (dir_pack_driver part) pack/unpack cases            -> see run_c19
-  --mode c18   directory trees opened through write- and read-caps -> see run_c18
-  --mode c21   directory graphs, build_manifest / start_deep_stats -> see run_c21
+  --mode c19cases  every GenDirPack case through create_from_cap / pack_children / _unpack_contents (C19, C18)
+  --mode c19dirs   real directories of 0-50 children assembled from accepted cases (C19, C18)
+  --mode c18trees  trees of real directories walked through write-cap and read-cap; traces for TraceDirTree.tla
+  --mode c21       real directory graphs, build_manifest / start_deep_stats; traces for TraceDeepTraverse.tla
 
 The driver never decides a verdict: it executes the calls, abstracts nodes / names / metadata to the
 Spec's vocabulary through fixed tables, and records what the code answered.
@@ -459,7 +460,10 @@ def observe_case(pw, rng, case, idx, namecases):
     obs["name"]["stored"] = nc["stored"] if stored_name == (atoms.get(nc["stored"]) or raw) else "?" + stored_name
     obs["knows_w"] = any(s in packed for s in caps.secrets) or any(base32_of(k) in packed for k in caps.writekeys)
     for who, d in (("w", wdir), ("r", rdir)):
-        children = d._unpack_contents(packed)
+        ust, children = exc_name(lambda: d._unpack_contents(packed))
+        if ust != "ok":
+            obs[who] = {"kept": False, "md": "md", "error": ust}
+            continue
         o = {"kept": want_listed in children, "md": "md"}
         if len(children) > 1 or (len(children) == 1 and want_listed not in children):
             obs["name"]["listed"] = "?" + repr(list(children.keys()))
@@ -686,6 +690,201 @@ def run_c18_trees(args, inp, rng):
     return out
 
 
+# ================================================================ C21: deep traversal of real directory graphs
+def gname(i):
+    return "%02d" % i
+
+
+def seeded_graph(rng, nobj):
+    """a random graph in the vocabulary of DeepTraverse.tla: trees, shared sub-directories, cycles, the same object
+    through write- and read-cap, literal files, literal / immutable directories, unknown caps"""
+    types, kids = {"o1": "dir"}, {"o1": []}
+    # immutable part first (acyclic by construction): ids from the top so that mutable directories can link them
+    order = ["o1"]
+    imm_objs = []
+    for i in range(2, nobj + 1):
+        o = "o%d" % i
+        t = rng.choice(["dir", "dir", "file", "file", "lit", "lit", "mfile", "unk", "idir", "litdir"])
+        types[o] = t
+        kids[o] = []
+        order.append(o)
+    used = {o: set() for o in types}
+
+    def link(d, to, lvl):
+        free = [n for n in range(1, 13) if n not in used[d]]
+        if not free:
+            return
+        n = rng.choice(free)
+        used[d].add(n)
+        kids[d].append({"name": n, "to": to, "lvl": lvl})
+
+    def lv(t):
+        return rng.choice(["w", "w", "r"]) if types[t] in ("dir", "mfile") else "r"
+    immutable = lambda o: types[o] in ("file", "lit", "idir", "litdir")
+    idx = {o: i for i, o in enumerate(order)}
+    lit_taken, state = set(), {"empty_litdir": False}
+    # contents of immutable directories: only immutable objects with a larger index (no cycles)
+    for o in sorted(order, key=lambda x: (types[x] != "litdir", idx[x])):
+        if types[o] == "idir":
+            cands = [x for x in order if idx[x] > idx[o] and immutable(x)]
+            for x in rng.sample(cands, min(len(cands), rng.choice([0, 1, 2, 3]))):
+                link(o, x, "r")
+        elif types[o] == "litdir":
+            # literal directories with equal contents are one and the same object (equal caps): keep them distinct --
+            # at most one empty one, the others hold one literal file that no other literal directory holds
+            cands = [x for x in order if idx[x] > idx[o] and types[x] == "lit" and x not in lit_taken]
+            if cands and (state["empty_litdir"] or rng.random() < 0.6):
+                x = rng.choice(cands)
+                lit_taken.add(x)
+                link(o, x, "r")
+            elif not state["empty_litdir"]:
+                state["empty_litdir"] = True
+            else:
+                types[o] = "lit"
+    # backbone: every object gets a parent among the mutable directories before it
+    mdirs = [o for o in order if types[o] == "dir"]
+    for o in order[1:]:
+        parents = [d for d in mdirs if idx[d] < idx[o]]
+        d = rng.choice(parents)
+        link(d, o, lv(o))
+    # extra links: shared objects, cycles, self links, second link through the other cap
+    for _ in range(rng.randint(0, nobj)):
+        d = rng.choice(mdirs)
+        link(d, rng.choice(order), lv(rng.choice(order)) if False else "w")
+    for d in mdirs:
+        for k in kids[d]:
+            if types[k["to"]] not in ("dir", "mfile"):
+                k["lvl"] = "r"
+            elif rng.random() < 0.3:
+                k["lvl"] = "r"
+    return {"type": types, "kids": kids, "root": "o1"}
+
+
+class GraphWorld:
+    def __init__(self, g, graph, rng, tag):
+        from allmydata.interfaces import MDMF_VERSION, SDMF_VERSION
+        self.g, self.nm, self.graph = g, g.nodemaker, graph
+        types = graph["type"]
+        self.caps = {}          # obj -> {"w": cap or None, "r": cap}
+        self.back = {}          # cap string -> (obj, lvl)
+        k = lambda o, t, n=16: fake_key(b"%s-%s-%s" % (tag, o.encode(), t), n)
+        # immutable directories bottom-up (their contents are fixed at creation)
+        pending = [o for o in types if types[o] in ("idir", "litdir")]
+        for o, t in types.items():
+            if t == "dir":
+                node = g.run(self.nm.create_new_mutable_directory(version=rng.choice([SDMF_VERSION, MDMF_VERSION])))
+                self.caps[o] = {"w": node.get_uri(), "r": node.get_readonly_uri()}
+            elif t == "mfile":
+                w = rng.choice([uri_mod.WriteableSSKFileURI, uri_mod.WriteableMDMFFileURI])(k(o, b"wk"), k(o, b"fp", 32))
+                self.caps[o] = {"w": w.to_string(), "r": w.get_readonly().to_string()}
+            elif t == "file":
+                self.caps[o] = {"w": None, "r": uri_mod.CHKFileURI(k(o, b"k"), k(o, b"u", 32), 3, 10, 57 + int(o[1:])).to_string()}
+            elif t == "lit":
+                self.caps[o] = {"w": None, "r": uri_mod.LiteralFileURI(b"L" + o.encode()).to_string()}
+            elif t == "unk":
+                self.caps[o] = {"w": None, "r": b"ro.x-tahoe-future-cap:" + o.encode()}
+        while pending:
+            progress = False
+            for o in list(pending):
+                ks = graph["kids"][o]
+                if all(x["to"] in self.caps for x in ks):
+                    children = {gname(x["name"]): (self.nm.create_from_cap(None, self.caps[x["to"]]["r"]), {}) for x in ks}
+                    if types[o] == "idir":      # pad the contents beyond the literal threshold, with a unique tag
+                        children["pad"] = (self.nm.create_from_cap(None, uri_mod.LiteralFileURI(b"pad" + o.encode()).to_string()),
+                                           {"pad": "x" * 60})
+                    node = g.run(self.nm.create_immutable_directory(children))
+                    kind = node.get_uri().split(b":")[1]
+                    if kind != (b"DIR2-CHK" if types[o] == "idir" else b"DIR2-LIT"):
+                        raise RuntimeError("object %s came out as %r" % (o, kind))
+                    self.caps[o] = {"w": None, "r": node.get_uri()}
+                    pending.remove(o)
+                    progress = True
+            if not progress:
+                raise RuntimeError("cyclic immutable directories in the graph")
+        for o, c in self.caps.items():
+            if c["w"]:
+                self.back[c["w"]] = (o, "w")
+            self.back.setdefault(c["r"], (o, "r"))
+        for o, t in types.items():
+            if t == "dir" and graph["kids"][o]:
+                ents = {}
+                for x in graph["kids"][o]:
+                    c = self.caps[x["to"]]
+                    ents[gname(x["name"])] = (c["w"], c["r"]) if x["lvl"] == "w" else (None, c["r"])
+                g.run(self.nm.create_from_cap(self.caps[o]["w"]).set_children(ents))
+        if any(t == "idir" for t in types.values()):
+            # the padding child of an immutable directory is part of the real graph: add it to the graph the Spec sees
+            n = len(types)
+            for o in [x for x, t in types.items() if t == "idir"]:
+                n += 1
+                po = "p%d" % n
+                types[po] = "lit"
+                graph["kids"][po] = []
+                graph["kids"][o].append({"name": 99, "to": po, "lvl": "r"})
+                cap = uri_mod.LiteralFileURI(b"pad" + o.encode()).to_string()
+                self.caps[po] = {"w": None, "r": cap}
+                self.back[cap] = (po, "r")
+
+    def name_int(self, s):
+        return 99 if s == "pad" else int(s)
+
+    def obj_of(self, node):
+        u = node.get_uri()
+        if u in self.back:
+            return self.back[u]
+        return ("?" + repr(u), "?")
+
+    def observe(self, via):
+        rootcap = self.caps[self.graph["root"]]
+        root = self.nm.create_from_cap(rootcap["w"] if via == "w" else rootcap["r"])
+        res = self.g.run(root.build_manifest().when_done())
+        vis = []
+        for (path, cap) in res["manifest"]:
+            obj, lvl = self.back.get(cap, ("?" + repr(cap), "?"))
+            st, node = exc_name(lambda: self.g.run(root.get_child_at_path(list(path))) if path else root)
+            r = self.obj_of(node)[0] if st == "ok" else "nowhere:" + st
+            vis.append({"path": [self.name_int(p) for p in path], "obj": obj, "lvl": lvl, "res": r})
+        ds = self.g.run(root.start_deep_stats().when_done())
+
+        def st(d):
+            return {"dirs": d["count-directories"], "files": d["count-files"], "imm": d["count-immutable-files"],
+                    "lit": d["count-literal-files"], "mut": d["count-mutable-files"], "unk": d["count-unknown"],
+                    "maxkids": d["largest-directory-children"]}
+        return [{"ev": "manifest", "via": via, "vis": vis, "verifycaps": len(res["verifycaps"]), "storage_indexes": len(res["storage-index"])},
+                {"ev": "stats", "via": via, "manifest_stats": st(res["stats"]), "deep_stats": st(ds)}]
+
+
+def run_c21(args, inp, rng):
+    graphs = list((inp or {}).get("graphs", []))
+    for i in range(args.n):
+        graphs.append(seeded_graph(rng, rng.choice([5, 8, 12, 20, 30, 40])))
+    out = []
+    g, used = None, 0
+    wd = None
+    for gi, graph in enumerate(graphs):
+        ndirs = sum(1 for t in graph["type"].values() if t == "dir")
+        if g is None or used + ndirs > 40:
+            if g is not None:
+                g.close()
+                shutil.rmtree(wd, ignore_errors=True)
+            wd = os.path.join(args.work, "g_%d" % gi)
+            g = Grid(wd, num_servers=1, k=1, n=1, happy=1, seed=args.seed)
+            used = 0
+        used += ndirs
+        graph = copy.deepcopy(graph)
+        graph.setdefault("root", "o1")
+        w = GraphWorld(g, graph, rng, b"%d" % gi)
+        events = []
+        for via in ("w", "r"):
+            events += w.observe(via)
+        out.append({"consts": {"type": graph["type"], "kids": graph["kids"], "root": graph["root"]}, "events": events,
+                    "src": graph.get("src", "seeded" if gi >= len(graphs) - args.n else "tlc")})
+    if g is not None:
+        g.close()
+        shutil.rmtree(wd, ignore_errors=True)
+    return out
+
+
 def main():
     ap = argparse.ArgumentParser()
     ap.add_argument("--out", required=True)
@@ -709,6 +908,8 @@ def main():
             out = run_c19_dirs(args, inp, rng)
         elif args.mode == "c18trees":
             out = run_c18_trees(args, inp, rng)
+        elif args.mode == "c21":
+            out = run_c21(args, inp, rng)
         else:
             raise SystemExit("unknown mode %s" % args.mode)
     finally:
